@@ -10,6 +10,8 @@ import (
 	"sort"
 )
 
+func init() { register("c17", cmdC17) }
+
 func exportJSON(v value.Value) ([]byte, error) {
 	ex := export.JSON()
 	err := export.Export(funcGen.NewEmptyStack[value.Value](), v, ex)
